@@ -157,7 +157,10 @@ fn decode_check(made: &Made, sink: Vec<u8>) -> Option<(String, String)> {
     // text kinds: the writer's output is compared through the reader with a read of the model text
     let obs = kinds::read(kind, 0, Source::plain(data));
     let got = kinds::content_items(&obs.items);
-    let want: Vec<String> = if kinds::has_model(kind, 0) {
+    let want: Vec<String> = if matches!(kind, Kind::Gff | Kind::Gtf) {
+        // the writers percent-encode non-ASCII characters of attribute values
+        made.expected.iter().map(|l| crate::genr::vcf::canonical_line(l)).collect()
+    } else if kinds::has_model(kind, 0) {
         made.expected.clone()
     } else {
         kinds::content_items(&kinds::read(kind, 0, Source::plain(made.bytes.clone())).items)
@@ -490,6 +493,39 @@ impl Check for C14 {
                 Faults::List(vec![WritePlan::plain()]),
                 &mut findings,
             );
+        }
+        // (c) a BGZF writer dropped without finishing (fault-free sink) still emits the staged data
+        // and the EOF block — also when try_finish() was called earlier and more data followed
+        if let (Kind::Bgzf, Model::Bytes { payload, .. }) = (kind, &made.model) {
+            use super::c01::{End, Op, run_history};
+            let n = payload.len();
+            let tail = n.min(1 + n / 7).min(60_000);
+            let histories: [Vec<Op>; 3] = [
+                vec![Op::WriteAll { len: n }],
+                vec![Op::WriteAll { len: n - tail }, Op::TryFinish, Op::WriteAll { len: tail }],
+                vec![Op::WriteAll { len: n - tail }, Op::Flush, Op::TryFinish, Op::Write { len: tail }],
+            ];
+            for (hi, ops) in histories.iter().enumerate() {
+                ctx.stats.evaluations += 1;
+                let r = catch(|| run_history(None, payload, ops, End::Drop, WritePlan::plain()));
+                let bad = match r {
+                    Ok(Ok(h)) => match crate::model::bgzf::walk(&h.sink) {
+                        Ok(w) if w.ends_with_eof_marker && w.data[..] == payload[..h.accepted] && h.accepted == n => None,
+                        Ok(w) => Some(format!("after the drop the sink decodes to {} of {} bytes, EOF marker last: {}", w.data.len(), n, w.ends_with_eof_marker)),
+                        Err(e) => Some(format!("after the drop the sink is not well-formed BGZF: {e}")),
+                    },
+                    Ok(Err((c, m))) => Some(format!("{c}: {m}")),
+                    Err(pn) => Some(format!("panic at {}: {}", pn.location, pn.message)),
+                };
+                if let Some(msg) = bad {
+                    report(
+                        Violation::new("bgzf:writer", "drop-loses-data", ["drop", "try_finish-write-drop", "flush-try_finish-write-drop"][hi], msg),
+                        Faults::List(vec![WritePlan::plain()]),
+                        &mut findings,
+                    );
+                }
+                ctx.stats.probe("bgzf_drop_without_finish_checked", 1);
+            }
         }
         let plans: Vec<WritePlan> = match &p.faults {
             Faults::Enumerate { seed } => {
